@@ -82,6 +82,7 @@ SET_PAIRS_QUICK = [('int', 'int'), ('str', 'str'), ('obj', 'obj'), ('tuple', 'tu
                    ('int', 'float'), ('float', 'int'), ('int', 'str'), ('str', 'obj'), ('obj', 'int'), ('intGO', 'int'),
                    ('bool', 'bool'), ('float', 'float'), ('objstr', 'str'), ('second', 'second'), ('ih2i', 'ih2i'), ('ih3', 'ih3'),
                    ('month', 'month'), ('dt64', 'dt64'), ('dt64', 'date'), ('ih2GO', 'ih2'), ('ihdate', 'ihdate')]
+SET_PAIRS_THOROUGH_ONLY = {('month', 'month'), ('second', 'second'), ('ih2GO', 'ih2'), ('float', 'int'), ('dt64', 'dt64')}
 SET_FUNCS = ('union', 'intersection', 'difference')
 
 
@@ -112,6 +113,18 @@ def _mk_other(form, pool_b, lb_positions, pools):
     raise ValueError(form)
 
 
+def _pool_class(pa, pb):
+    """coarse operand class used in failure keys (the pool pair itself is in the replay data)"""
+    def one(x):
+        return 'hierarchy' if x.startswith('ih') else 'datetime' if x in ('date', 'month', 'second', 'dt64') else 'index'
+    a, b = one(pa), one(pb)
+    if a != b:
+        return f'{a}-{b}'
+    if a == 'index' and pa.replace('GO', '') != pb.replace('GO', ''):
+        return 'index-mixed-dtype'
+    return a
+
+
 def check_set_case(p):
     """p: dict(pa, pb, A, B, func, form).  Returns (failures, nontrivial) ; failures = [(key, what)]"""
     pools = _pools()
@@ -126,7 +139,7 @@ def check_set_case(p):
             return None, False      # precondition: this label order is not a valid tree form, the operand cannot be built
         raise
     func = p['func']
-    area = f"{PID}:set:{p['pa']}-{p['pb']}:{func}" + ('' if p['form'] == 'index' else ':' + p['form'])
+    area = f"{PID}:set:{_pool_class(p['pa'], p['pb'])}:{func}"
     exp = _set_expected(func, la, lb)
     try:
         with warnings.catch_warnings():
@@ -162,7 +175,7 @@ def check_set_multi(p):
         raise
     lbs = [labels_of(o) for o in others]
     func = p['func']
-    area = f"{PID}:set:{p['pa']}:{func}-variadic"
+    area = f"{PID}:set:{_pool_class(p['pa'], p['pa'])}:{func}-variadic"
     exp = set(la)
     for lb in lbs:
         exp = (exp | set(lb)) if func == 'union' else (exp & set(lb))
@@ -186,6 +199,8 @@ def _set_cases(tier):
     kmax = 3 if tier == 'quick' else 4
     pools = _pools()
     for pa, pb in SET_PAIRS_QUICK:
+        if tier == 'quick' and (pa, pb) in SET_PAIRS_THOROUGH_ONLY:
+            continue
         na, nb = len(pools[pa][0]), len(pools[pb][0])
         hier = pa.startswith('ih')
         k = kmax if (not hier or tier != 'quick') else 3
